@@ -31,7 +31,7 @@ MANIFEST = dict(
           "by each product = defaults overlaid by user settings; no failure unless injected (also for the 2nd/3rd product); an injected "
           "constructor/config/product error reaches the caller where it strikes; panic carrying the error only when the requested factory type "
           "has no error result; component constructors get a fresh, freshly decoded config per product; factory constructors decode once and "
-          "the registered factory runs once per product. TLC checks them on every step for the full cross product (8 384 cases) and four "
+          "the registered factory runs once per product. TLC checks them on every step for the full cross product (10 838 cases) and four "
           "negative controls fail. Every case is then executed on the real code (fresh registry per case, constructors generated with reflect, "
           "both map shapes, nested plugin / list->composite, product config mutated between calls, plus the real `rps` list/composite entries) "
           "and TLC validates each observed run against the invariants and the model's exact observable. This is the right level: the statement "
@@ -43,14 +43,15 @@ MANIFEST = dict(
 
 INVS = ["IsCase", "Conforms", "PConfigRight", "PNoSpuriousFailure", "PFailureReaches", "PPanicRule",
         "PFreshPerProduct", "POncePerFactory"]
-NEGS = ["PluginRegistry_neg_mapcopy.cfg", "PluginRegistry_neg_cache.cfg", "PluginRegistry_neg_nodefault.cfg",
+NEGS = ["PluginRegistry_neg_typeonly.cfg", "PluginRegistry_neg_mapcopy.cfg", "PluginRegistry_neg_cache.cfg", "PluginRegistry_neg_nodefault.cfg",
         "PluginRegistry_neg_panic.cfg"]
 
 
 def case_sig(c):
     return ("reg=%s ret=%s cfg=%s cerr=%s ferr=%s dflt=%s form=%s fail=%s nested=%s shape=%s calls=%s mutate=%s" % (
         c["reg"], c["ret"], c["cfg"], int(c["cerr"]), int(c["ferr"]), int(c["dflt"]), c["form"], c["fail"], c["nested"],
-        c["shape"], "1" if c["calls"] == 1 else ">=2", int(c["mutate"])))
+        c["shape"], "1" if c["calls"] == 1 else ">=2", int(c["mutate"])) +
+            ("" if (c.get("user", "set"), c.get("dv", "valid")) == ("set", "valid") else " user=%s defaults=%s" % (c["user"], c["dv"])))
 
 
 def validate(v, obs_path, rows, workers=8):
